@@ -44,6 +44,9 @@ def gen_targets(rng, inp_n: int, n_all: int, exact: bool, boundary_heavy=False):
             rs.add(rng.choice([0.0, 1.0, -0.5, 1.5, -0.0, 0.5]))
     if boundary_heavy:
         rs |= {0.0, 1.0, -0.5, 1.5}
+        # out-of-range targets that are not "nice": the interpolation weight is then fractional even though both
+        # neighbours are the same extreme score
+        rs |= {-rng.random() for _ in range(5)} | {1.0 + rng.random() for _ in range(3)} | {-rng.choice([0.9, 0.37, 0.1, 1.3])}
         if not exact:
             rs |= {gen.down(0.0), gen.up(1.0)}
     return sorted(float(x) for x in rs)
